@@ -17,6 +17,7 @@ import (
 	"time"
 
 	"github.com/bartossh/Computantis/src/accountant"
+	"github.com/bartossh/Computantis/src/serializer"
 	"github.com/bartossh/Computantis/src/spice"
 	"github.com/bartossh/Computantis/src/transaction"
 	"github.com/bartossh/Computantis/src/wallet"
@@ -56,6 +57,35 @@ func Cast(name string) *Actor {
 	cast[name] = a
 	byAddr[a.Addr] = a
 	return a
+}
+
+// Alias returns an actor with the SAME key pair as name but an address string built with another version byte
+// (the address format is base58(version | public key | checksum(version | public key))).
+func Alias(name string, version byte) *Actor {
+	base := Cast(name)
+	aname := fmt.Sprintf("%s~v%d", name, version)
+	castMu.Lock()
+	defer castMu.Unlock()
+	if a, ok := cast[aname]; ok {
+		return a
+	}
+	payload := append([]byte{version}, base.W.Public...)
+	h1 := sha256.Sum256(payload)
+	h2 := sha256.Sum256(h1[:])
+	full := append(payload, h2[:4]...)
+	a := &Actor{Name: aname, W: base.W, Addr: string(serializer.Base58Encode(full))}
+	cast[aname] = a
+	byAddr[a.Addr] = a
+	return a
+}
+
+// KeyOf extracts the public-key bytes from an address string (no checksum verification); "" if undecodable.
+func KeyOf(addr string) string {
+	b, err := serializer.Base58Decode([]byte(addr))
+	if err != nil || len(b) < 6 {
+		return ""
+	}
+	return string(b[1 : len(b)-4])
 }
 
 // AddrName maps an address back to a cast name.
